@@ -563,7 +563,7 @@ func (rw *rewriter) walk(n ast.Node, depth int, opts Options) error {
 			}
 			if typ, method, se, selection := rw.syncMethod(x); typ != "" {
 				switch {
-				case (typ == "Mutex" || typ == "RWMutex") && (method == "Lock" || method == "RLock") && len(x.Args) == 0:
+				case (typ == "Mutex" || typ == "RWMutex") && (method == "Lock" || method == "RLock" || method == "Unlock" || method == "RUnlock") && len(x.Args) == 0:
 					sid := rw.site(x.Pos(), "lock")
 					path, ptr := fieldPath(selection)
 					amp := "&"
